@@ -292,14 +292,26 @@ def _pending_write_state_rule(ctx, res) -> None:
     cls = idx.need_class("rope.refactor.encapsulate_field._FindChangesForModule")
     mw = cls.methods.get("_manage_writes")
     f = cls.methods.get("get_changed_module")
+    if mw is None and f is not None:
+        # by role: the private method the occurrence loop calls that closes the pending write -- it tests an attribute against None
+        # and clears it (`if self.last_set is not None ...: ...; self.last_set = None`)
+        def closes(m):
+            cleared = {t.attr for x in walk_local(m.node) if isinstance(x, ast.Assign) and isinstance(x.value, ast.Constant) and x.value.value is None
+                       for t in x.targets if is_self_attr(t)}
+            tested = {c.left.attr for c in walk_local(m.node) if isinstance(c, ast.Compare) and is_self_attr(c.left) and len(c.ops) == 1
+                      and isinstance(c.ops[0], ast.IsNot) and isinstance(c.comparators[0], ast.Constant) and c.comparators[0].value is None}
+            return bool(cleared & tested)
+        called = {c.func.attr for c in calls_in(f.node) if is_self_attr(c.func)}
+        cands = [m for m in cls.methods.values() if m is not f and m.name in called and closes(m)]
+        mw = cands[0] if len(cands) == 1 else None
     if mw is None or f is None:
         raise AnalysisError("anchor=_FindChangesForModule._manage_writes / get_changed_module missing")
     reads = {x.attr for x in ast.walk(mw.node) if is_self_attr(x) and isinstance(x.ctx, ast.Load)}
-    node = inline_private_calls(idx, f, keep=("_manage_writes",))
+    node = inline_private_calls(idx, f, keep=(mw.name,))
     cfg = CFG(node)
-    calls = [nd.id for nd in cfg.nodes if nd.ast is not None and nd.kind in ("stmt", "test") and any(is_self_attr(c.func, "_manage_writes") for c in calls_in(nd.ast))]
+    calls = [nd.id for nd in cfg.nodes if nd.ast is not None and nd.kind in ("stmt", "test") and any(is_self_attr(c.func, mw.name) for c in calls_in(nd.ast))]
     if not calls:
-        raise AnalysisError("anchor=get_changed_module: no call of _manage_writes")
+        raise AnalysisError(f"anchor=get_changed_module: no call of {mw.name}")
     loops = [nd for nd in cfg.nodes if nd.kind == "loop"]
     n = 0
     for nd in cfg.nodes:
@@ -315,7 +327,7 @@ def _pending_write_state_rule(ctx, res) -> None:
                  if nd.id in cfg.reachable(l.id))
         res.add("R17.12", f"get_changed_module|pending-write-state-set-after-closing:{attrs[0]}#{n}", ok, f"{f.unit.rel}:{st.lineno}",
                 f"self.{attrs[0]} is set after the pending write was closed" if ok else
-                f"`{ast.unparse(st)[:60]}` can run before `_manage_writes` closes the PREVIOUS write, which reads self.{attrs[0]}: `acct.balance -= fee + tax` followed "
+                f"`{ast.unparse(st)[:60]}` can run before `{mw.name}` closes the PREVIOUS write, which reads self.{attrs[0]}: `acct.balance -= fee + tax` followed "
                 "by a plain `acct.balance = ...` is closed with the flag of the plain write -- `set_balance(get_balance() - fee + tax)`, no parentheses, another value",
                 function=f.qualname)
     res.floor("R17.12", "assignments of pending-write state in the occurrence loop", n, 2)
